@@ -1,10 +1,14 @@
 package checks
 
 import (
+	"bytes"
 	"context"
+	"encoding/json"
 	"errors"
 	"fmt"
 	"os"
+	"os/exec"
+	"path/filepath"
 	"runtime"
 	"strings"
 	"syscall"
@@ -174,8 +178,17 @@ func checkC10() fw.Check {
 					}
 				}
 			}
+			// the REAL handle constructors (the simulated factory replaces them everywhere else): a library caller built without
+			// the verif tag runs the request in a child process whose descriptor limit allows 1, 2, 3 ... more descriptors
+			// than are open (socket() fails with EMFILE at every position of the opening sequence in turn)
+			var late []fw.Case
+			for _, pm := range [][2]string{{"icmp", ""}, {"udp", ""}, {"tcp", "syn"}, {"tcp", "prefer_sack"}} {
+				pm := pm
+				id := fmt.Sprintf("C10/real-constructors/%s%s", pm[0], pm[1])
+				late = append(late, fw.Case{ID: id, Run: func(c *fw.Ctx) { runC10RealConstructors(c, id, pm[0], pm[1]) }})
+			}
 			// the real raw socket refusing a send (kernel_stage_test.go)
-			return withKernelStage("C10", tier, cases)
+			return withKernelStage("C10", tier, cases, late...)
 		},
 	}
 }
@@ -222,6 +235,66 @@ func runC10Request(c *fw.Ctx, id, proto, op string, j int) {
 	case !errors.Is(rerr, errInjected):
 		c.Violate("C10", "cause-lost/request/"+op, fmt.Sprintf("%s: the request's error does not wrap the injected cause: %v", id, rerr), nil)
 	}
+}
+
+// runC10RealConstructors: see the case list. Oracle per run of the child: a run that fails has no result and still names
+// the cause ("too many open files"), and whatever the outcome no descriptor the run opened is left behind (the child counts
+// /proc/self/fd with the garbage collector disabled, so no finaliser closes a forgotten socket).
+func runC10RealConstructors(c *fw.Ctx, id, proto, method string) {
+	bin := filepath.Join(os.Getenv("VERIF_BUILD_DIR"), "trhelper")
+	if _, err := os.Stat(bin); err != nil {
+		c.Inconclusive(id + ": trhelper not built (run through ./check)")
+		return
+	}
+	in, _ := json.Marshal(map[string]any{"hostname": "127.0.0.1", "port": 8099, "protocol": proto, "tcp_method": method, "min_ttl": 1, "max_ttl": 2, "timeout_ms": 150, "queries": 1, "e2e": 0, "fd_limit": true})
+	ctx, cancel := context.WithTimeout(context.Background(), 90*time.Second)
+	defer cancel()
+	cmd := exec.CommandContext(ctx, bin)
+	cmd.Stdin = bytes.NewReader(in)
+	var so, se bytes.Buffer
+	cmd.Stdout, cmd.Stderr = &so, &se
+	if err := cmd.Run(); err != nil {
+		if ctx.Err() != nil {
+			c.Inconclusive(id + ": child watchdog fired")
+			return
+		}
+		c.Violate("C10", "crash/real-constructors/"+proto+method, fmt.Sprintf("%s: the child process failed: %v: %.400s", id, err, se.String()), nil)
+		return
+	}
+	var doc struct {
+		Runs []struct {
+			Extra  int    `json:"extra"`
+			Error  string `json:"error"`
+			Result bool   `json:"result"`
+			Leaked int    `json:"leaked"`
+			Which  string `json:"which"`
+		} `json:"fd_runs"`
+	}
+	if err := json.Unmarshal(so.Bytes(), &doc); err != nil || len(doc.Runs) == 0 {
+		c.Inconclusive(fmt.Sprintf("%s: unreadable child output: %v", id, err))
+		return
+	}
+	failed := 0
+	for _, r := range doc.Runs {
+		tag := fmt.Sprintf("%s with room for %d more descriptor(s)", id, r.Extra)
+		c.Count("real_constructor_runs", 1)
+		if r.Leaked > 0 {
+			c.Violate("C10", "fd-leak/real-constructors/"+proto+method, fmt.Sprintf("%s: %d descriptor(s) left open after the run returned (%s); error: %q", tag, r.Leaked, strings.TrimSpace(r.Which), r.Error), nil)
+		}
+		if r.Error != "" {
+			failed++
+			if r.Result {
+				c.Violate("C10", "result-and-error/real-constructors/"+proto+method, tag+": both a result and an error", nil)
+			}
+			if !strings.Contains(r.Error, "too many open files") {
+				c.Violate("C10", "cause-lost/real-constructors/"+proto+method, fmt.Sprintf("%s: socket() failed with EMFILE but the error does not say so: %q", tag, r.Error), nil)
+			}
+		}
+	}
+	if failed > 0 {
+		c.Nontrivial(fmt.Sprintf("real-constructors/%s%s/%d-failing-positions", proto, method, failed))
+	}
+	c.Sample(map[string]any{"case": id, "runs": doc.Runs})
 }
 
 func runC10WrongFamily(c *fw.Ctx, id string, v refmatch.Variant) {
